@@ -14,10 +14,10 @@ fn c16_arr_to_u64() {
     kani::cover!(n == 9, "9-byte slice reached");
     let r = tools::arr_to_u64(&b[..n]);
     if n > 8 {
-        assert!(r.is_err(), "C16a: unsigned decoder rejects slices longer than 8");
+        assert!(r.is_err(), "C16/C02a: unsigned decoder rejects slices longer than 8");
         core::mem::forget(r);
     } else {
-        assert!(matches!(r, Ok(v) if v == ref_be_u64(&b, n)), "C16a: unsigned decoder == big-endian value (empty = 0)");
+        assert!(matches!(r, Ok(v) if v == ref_be_u64(&b, n)), "C16/C02a: unsigned decoder == big-endian value (empty = 0)");
     }
 }
 
@@ -34,10 +34,10 @@ fn c16_arr_to_i64() {
     kani::cover!(n == 9, "9-byte slice reached");
     let r = tools::arr_to_i64(&b[..n]);
     if n > 8 {
-        assert!(r.is_err(), "C16a: signed decoder rejects slices longer than 8");
+        assert!(r.is_err(), "C16/C02a: signed decoder rejects slices longer than 8");
         core::mem::forget(r);
     } else {
-        assert!(matches!(r, Ok(v) if v == ref_be_i64_sext(&b, n)), "C16a: signed decoder == sign-extended two's complement (empty = 0)");
+        assert!(matches!(r, Ok(v) if v == ref_be_i64_sext(&b, n)), "C16/C02a: signed decoder == sign-extended two's complement (empty = 0)");
     }
 }
 
@@ -54,22 +54,22 @@ fn c16_arr_to_f64() {
     let r = tools::arr_to_f64(&b[..n]);
     if n == 8 {
         let bits = ref_be_u64(&b, 8);
-        assert!(matches!(r, Ok(v) if v.to_bits() == bits), "C16a: 8-byte float is bit-exact");
+        assert!(matches!(r, Ok(v) if v.to_bits() == bits), "C16/C02a: 8-byte float is bit-exact");
     } else if n == 4 {
         let f = f32::from_bits(ref_be_u64(&b, 4) as u32);
         match r {
             Ok(v) => {
-                assert!(v.is_nan() == f.is_nan(), "C16a: 4-byte float NaN-ness preserved");
+                assert!(v.is_nan() == f.is_nan(), "C16/C02a: 4-byte float NaN-ness preserved");
                 if !f.is_nan() {
                     // f32 -> f64 is exact: converting back gives the same f32 bits
-                    assert!((v as f32).to_bits() == f.to_bits(), "C16a: 4-byte float value preserved exactly");
-                    assert!(v.to_bits() == (f as f64).to_bits(), "C16a: 4-byte float widened as IEEE-754 conversion");
+                    assert!((v as f32).to_bits() == f.to_bits(), "C16/C02a: 4-byte float value preserved exactly");
+                    assert!(v.to_bits() == (f as f64).to_bits(), "C16/C02a: 4-byte float widened as IEEE-754 conversion");
                 }
             }
-            Err(_) => assert!(false, "C16a: 4-byte float must decode"),
+            Err(_) => assert!(false, "C16/C02a: 4-byte float must decode"),
         }
     } else {
-        assert!(r.is_err(), "C16a: float decoder rejects lengths other than 4 and 8");
+        assert!(r.is_err(), "C16/C02a: float decoder rejects lengths other than 4 and 8");
         core::mem::forget(r);
     }
 }
